@@ -912,6 +912,7 @@ func (e *c18_rEnv) recvLoop(s *ast.ForStmt, after []ast.Stmt, k string) (string,
 		return t == er.Name+"==io.EOF" || t == "io.EOF=="+er.Name || t == "errors.Is("+er.Name+",io.EOF)"
 	}
 	var eofBody []ast.Stmt
+	var restBody []ast.Stmt // the statements of the loop after the error handling, when they are not s.Body.List[used:]
 	used := 0
 	first, ok := s.Body.List[1].(*ast.IfStmt)
 	if !ok || first.Init != nil {
@@ -929,10 +930,27 @@ func (e *c18_rEnv) recvLoop(s *ast.ForStmt, after []ast.Stmt, k string) (string,
 		eofBody, used = first.Body.List, 3
 	case isEOF(first.Cond):
 		pr, ok := first.Else.(*ast.IfStmt)
-		if !ok || pr.Init != nil || !env.isErrPropagation(pr) || pr.Else != nil {
+		if !ok || pr.Init != nil || !env.isErrPropagation(pr) {
 			return "", fmt.Errorf("the error test does not follow the end-of-stream test")
 		}
 		eofBody, used = first.Body.List, 2
+		if pr.Else != nil {
+			// if err == io.EOF {A; return …} else if err != nil {return …, err} else X   (what one switch over the
+			// error tests AND the tests of the chunk becomes): both arms leave the function, so X is simply what the
+			// loop goes on with
+			if n := len(eofBody); n == 0 {
+				return "", fmt.Errorf("the end-of-stream arm does not return")
+			} else if _, ok := eofBody[n-1].(*ast.ReturnStmt); !ok {
+				return "", fmt.Errorf("the end-of-stream arm does not return")
+			}
+			var rest []ast.Stmt
+			if b, ok := pr.Else.(*ast.BlockStmt); ok {
+				rest = append(rest, b.List...)
+			} else {
+				rest = append(rest, pr.Else)
+			}
+			restBody = append(rest, s.Body.List[2:]...)
+		}
 	case c18_squash(types.ExprString(first.Cond)) == er.Name+"!=nil" && first.Else == nil && len(first.Body.List) == 2:
 		inner, ok := first.Body.List[0].(*ast.IfStmt)
 		if !ok || inner.Init != nil || inner.Else != nil || !isEOF(inner.Cond) {
@@ -954,7 +972,10 @@ func (e *c18_rEnv) recvLoop(s *ast.ForStmt, after []ast.Stmt, k string) (string,
 	loop := "loop" + strconv.Itoa(e.tmp)
 	env.tmp = e.tmp
 	env.loops = append(append([]string{}, e.loops...), loop+" rest_"+loop)
-	body, err := env.stmts(s.Body.List[used:], loop+" rest_"+loop)
+	if restBody == nil {
+		restBody = s.Body.List[used:]
+	}
+	body, err := env.stmts(restBody, loop+" rest_"+loop)
 	if err != nil {
 		return "", err
 	}
@@ -1501,18 +1522,27 @@ func c18_reactToolsBranch(buildRD *ast.FuncDecl, consts map[string]string) (stri
 	if _, err := c18_paramNames(fl.Type, "the return-directly branch", []string{"context.Context", "*schema.StreamReader[[]*schema.Message]"}, "string,error"); err != nil {
 		return "", err
 	}
-	if fl.Type.Results == nil || len(fl.Type.Results.List) != 2 || len(fl.Type.Results.List[0].Names) != 1 || len(fl.Type.Results.List[1].Names) != 1 {
-		return "", fmt.Errorf("results are not named")
+	if fl.Type.Results == nil || len(fl.Type.Results.List) != 2 {
+		return "", fmt.Errorf("not two results")
 	}
-	rn, en := fl.Type.Results.List[0].Names[0].Name, fl.Type.Results.List[1].Names[0].Name
-	env := &c18_rEnv{locals: map[string]c18_rval{"state": {"state", "state"}, rn: {rn, "key"}, en: {en, "err"}}, consts: consts, retType: "gkey * gstate", ret: c18_keyRet(true)}
+	named := len(fl.Type.Results.List[0].Names) == 1 && len(fl.Type.Results.List[1].Names) == 1
+	if !named && (len(fl.Type.Results.List[0].Names) != 0 || len(fl.Type.Results.List[1].Names) != 0) {
+		return "", fmt.Errorf("results are partly named")
+	}
+	env := &c18_rEnv{locals: map[string]c18_rval{"state": {"state", "state"}}, consts: consts, retType: "gkey * gstate", ret: c18_keyRet(true)}
+	intro := ""
+	if named {
+		rn, en := fl.Type.Results.List[0].Names[0].Name, fl.Type.Results.List[1].Names[0].Name
+		env.locals[rn], env.locals[en] = c18_rval{rn, "key"}, c18_rval{en, "err"}
+		intro = "let " + rn + " := GKey \"\" in\n" // the named result starts as the empty key
+	}
 	c18_localKeys(buildRD.Body, env.locals)
 	body, err := env.stmts(fl.Body.List, "")
 	if err != nil {
 		return "", err
 	}
 	return "(* buildReturnDirectly: the branch after the tools node (the named result starts as the empty key) *)\n" +
-		"Definition tools_post_branch (unk : string -> string) (state : gstate) : gkey * gstate :=\nlet " + rn + " := GKey \"\" in\n" + body + ".\n", nil
+		"Definition tools_post_branch (unk : string -> string) (state : gstate) : gkey * gstate :=\n" + intro + body + ".\n", nil
 }
 
 // directReturn: the function handed to schema.StreamReaderWithConvert: func(msgs []*schema.Message) (*schema.Message, error)
